@@ -9,6 +9,7 @@ matching, and repeated / interleaved calls on the same manager; TraceWallSolver.
 """
 import hashlib
 import json
+import math
 import os
 import shutil
 import tempfile
@@ -59,25 +60,158 @@ def result_hash(res):
 
 
 class Recorder:
-    """harness-side probe on EOM.wallPressure (no change to /repo): logs the depth-0 calls"""
+    """harness-side probes (no change to /repo): EOM.wallPressure (depth-0 calls) and, inside each call, every pass of its
+    iteration -- the outer calls of _intermediatePressureResults / _getNextPressure with the multiplier they were given"""
 
     def __init__(self, WG):
         self.WG, self.calls, self.active = WG, [], False
+        self.all_calls = []          # every depth-0 call, also those made outside the recorded solveWall (audits, detonation search)
         self.orig = WG.EOM.wallPressure
+        self.orig_int = WG.EOM._intermediatePressureResults
+        self.orig_next = WG.EOM._getNextPressure
+        self.depth_wp = 0
+        self.in_next = 0
+        self.passes = None
         rec = self
 
         def wrapped(eom, wallVelocity, wallParams, atol=None, rtol=None, boltzmannResultsInput=None):
             stage = float(eom.pressAbsErrTol)
-            out = rec.orig(eom, wallVelocity, wallParams, atol, rtol, boltzmannResultsInput)
-            if rec.active:
-                rec.calls.append(dict(v=float(wallVelocity), p=float(out[0]), conv=bool(eom.successWallPressure),
-                                      tprof=bool(eom.successTemperatureProfile), atol=stage, out=out))
+            top = rec.depth_wp == 0
+            rec.depth_wp += 1
+            if top:
+                rec.passes = []
+            try:
+                out = rec.orig(eom, wallVelocity, wallParams, atol, rtol, boltzmannResultsInput)
+            finally:
+                rec.depth_wp -= 1
+            if top:
+                c = dict(v=float(wallVelocity), p=float(out[0]), conv=bool(eom.successWallPressure),
+                         tprof=bool(eom.successTemperatureProfile), atol=stage, out=out,
+                         passes=rec.passes, rtol=float(eom.pressRelErrTol if rtol is None else rtol),
+                         atolUsed=float(stage if atol is None else atol), maxIt=int(eom.maxIterations),
+                         improve0=bool(eom.forceImproveConvergence or wallVelocity > eom.hydrodynamics.vJ))
+                rec.all_calls.append(c)
+                if rec.active:
+                    rec.calls.append(c)
+            if top:
+                rec.passes = None
+            return out
+
+        def wrapped_int(eom, *a, **kw):
+            out = rec.orig_int(eom, *a, **kw)
+            if rec.passes is not None and rec.in_next == 0 and rec.depth_wp == 1:
+                rec.passes.append(dict(kind="init" if not rec.passes else "plain", mult=float(kw.get("multiplier", 1.0)), p=float(out[0]), es=0.0))
+            return out
+
+        def wrapped_next(eom, *a, **kw):
+            rec.in_next += 1
+            try:
+                out = rec.orig_next(eom, *a, **kw)
+            finally:
+                rec.in_next -= 1
+            if rec.passes is not None and rec.in_next == 0 and rec.depth_wp == 1:
+                rec.passes.append(dict(kind="improved", mult=float(kw.get("multiplier", 1.0)), p=float(out[0]), es=float(out[4])))
             return out
 
         WG.EOM.wallPressure = wrapped
+        WG.EOM._intermediatePressureResults = wrapped_int
+        WG.EOM._getNextPressure = wrapped_next
 
     def close(self):
         self.WG.EOM.wallPressure = self.orig
+        self.WG.EOM._intermediatePressureResults = self.orig_int
+        self.WG.EOM._getNextPressure = self.orig_next
+
+
+def iteration_events(call):
+    """the passes of one wallPressure call as PressureIter events; the comparisons are recomputed from the recorded pressures
+    with the code's own formulas (error, errTol = max(rtol |p|, atol) * multiplier, two-cycle test, slow-decrease test)"""
+    ps = call["passes"] or []
+    if not ps or ps[0]["kind"] != "init":
+        return None
+    evs = [{"e": "Start", "maxIt": call["maxIt"], "improve": call["improve0"]}]
+    pressures = [ps[0]["p"]]
+    for q in ps[1:]:
+        pressures.append(q["p"])
+        mult = q["mult"]
+        error = np.abs(pressures[-1] - pressures[-2])
+        errTol = np.maximum(call["rtol"] * np.abs(q["p"]), call["atolUsed"]) * mult
+        es = q["es"]
+        osc = bool(len(pressures) >= 4 and abs(pressures[-1] - pressures[-3]) < errTol and abs(pressures[-2] - pressures[-4]) < errTol)
+        slow = bool(len(pressures) > 2 and error > abs(pressures[-2] - pressures[-3]) / 1.5)
+        kk = -math.log2(mult) if mult > 0 else 9999
+        evs.append({"e": "Pass", "improve": q["kind"] == "improved", "k": int(round(kk)) if abs(kk - round(kk)) < 1e-9 else -1,
+                    "cErr": bool(error < errTol), "sLt": bool(es < errTol), "sGt": bool(es > errTol), "osc": osc, "slow": slow})
+    ret = float(call["out"][0])
+    evs.append({"e": "Exit", "passes": len(ps) - 1, "succ": call["conv"], "retLast": bool(ret == pressures[-1]),
+                "retMean": bool(ret == float(np.mean(pressures[-4:])))})
+    return evs
+
+
+def scripted_iterations(args):
+    """The loop of EOM.wallPressure on SCRIPTED pressure updates: the two update routines are replaced by a damped fixed-point
+    map p -> p + m (g(p) - p), g(p) = p* + lam (p - p*) (+ a perturbation), so that every branch of the loop -- two-cycles,
+    slow decrease, 'converged outside but not inside', the every-tenth-pass rule, the cap -- is taken by the real code.
+    Returns PressureIter traces."""
+    seed, nscripts = args
+    import WallGo
+
+    warnings.filterwarnings("ignore")
+    rng = np.random.default_rng(seed)
+    m = models.pipeline_model("two")
+    man, Tn = pipeline.build_manager(m, 0.92)
+    hy = man.hydrodynamics
+    st = WallGo.WallSolverSettings(bIncludeOffEquilibrium=False, meanFreePathScale=50.0, wallThicknessGuess=5.0)
+    eom = man.setupWallSolver(st).eom
+    rec = Recorder(WallGo)
+    traces = []
+
+    class Bg:
+        temperatureProfile = np.ones(eom.grid.M + 1)
+        velocityProfile = np.ones(eom.grid.M + 1)
+
+    try:
+        for j in range(nscripts):
+            lam = float(rng.choice([-1.0, -1.0, -1.2, -0.97, -0.6, 0.3, 0.9, 0.97, 0.995, 1.02]))
+            pstar = float(rng.choice([1.0, -3.0, 250.0, 0.0]))
+            noise = float(rng.choice([0.0, 0.0, 1e-3, 0.3]))
+            esfac = float(rng.choice([0.0, 0.5, 3.0, 30.0]))
+            state = {"p": pstar + float(rng.choice([1.0, -0.5, 40.0]))}
+
+            def step(mult):
+                g = pstar + lam * (state["p"] - pstar) + noise * rng.normal() * abs(state["p"] - pstar)
+                state["p"] = state["p"] + mult * (g - state["p"])
+                return state["p"]
+
+            def stub_int(eom_, wallParams, vevLowT, vevHighT, c1, c2, velocityMid, boltzmannResults, Tplus, Tminus,
+                         temperatureProfileInput=None, velocityProfileInput=None, multiplier=1.0):
+                return step(multiplier), wallParams, boltzmannResults, Bg()
+
+            def stub_next(eom_, pressure1, wallParams1, vevLowT, vevHighT, c1, c2, velocityMid, boltzmannResults1, Tplus, Tminus,
+                          temperatureProfile=None, velocityProfile=None, multiplier=1.0):
+                before = state["p"]
+                p = step(multiplier)
+                return p, wallParams1, boltzmannResults1, Bg(), esfac * abs(p - before)
+
+            rec.orig_int, rec.orig_next = stub_int, stub_next
+            eom.maxIterations = int(rng.choice([2, 3, 5, 12, 25, 45]))
+            eom.forceImproveConvergence = bool(rng.random() < 0.3)
+            eom.forceEnergyConservation = bool(rng.random() < 0.5)
+            eom.pressRelErrTol = float(rng.choice([0.1, 1e-2, 1e-4]))
+            eom.pressAbsErrTol = float(rng.choice([1e-8, 1e-3]))
+            vw = float(rng.choice([0.5 * (hy.vMin + hy.vJ), min(0.99, hy.vJ + 0.05)]))
+            rec.all_calls.clear()
+            try:
+                eom.wallPressure(vw, WallGo.WallParams(widths=np.array([5.0 / Tn] * m.nf), offsets=np.zeros(m.nf)))
+                evs = iteration_events(rec.all_calls[-1]) if rec.all_calls else None
+            except Exception as ex:
+                evs = [{"e": "Exception", "out": type(ex).__name__, "msg": str(ex)[:200]}]
+            if evs:
+                traces.append({"id": f"script_s{seed}_{j}_lam{lam}_it{eom.maxIterations}", "ev": evs,
+                               "cell": {"kind": "piterScript", "seed": seed, "j": j, "lam": lam, "maxIt": int(eom.maxIterations)}})
+    finally:
+        rec.close()
+    return traces
 
 
 def same_as_last(res, last):
@@ -111,7 +245,7 @@ def scenario(cell):
             from pathlib import Path
             cdir = Path(tmp)
         man, Tn = pipeline.build_manager(m, cell["tn"], M=cell["M"], N=cell["N"], errTol=cell["errTol"], maxIterations=cell["maxIt"],
-                                         nparticles=npart, collision_dir=cdir)
+                                         nparticles=npart, collision_dir=cdir, pressRelErrTol=cell.get("pressRel", 0.1))
         hy = man.hydrodynamics
         settings = WallGo.WallSolverSettings(bIncludeOffEquilibrium=bool(npart), meanFreePathScale=50.0, wallThicknessGuess=5.0)
         rec = Recorder(WallGo)
@@ -169,6 +303,7 @@ def scenario(cell):
                 r2 = man.solveWall(settings)
                 evs.append({"e": "Repeat", "after": hist[: hist.index(op) + 1], "same": bool(result_hash(r2) == h0)})
         evs.append({"e": "End"})
+        piter = [iteration_events(c) for c in rec.all_calls]
     except Exception as ex:
         evs.append({"e": "Setup" if not evs else "Exception", "out": type(ex).__name__, "msg": str(ex)[:200]})
     finally:
@@ -181,7 +316,7 @@ def scenario(cell):
     contradict = any(e.get("e") == "Audit" and e["k"] >= 2 and ((e["okBelow"] and e["sBelow"] > 0) or (e["okAbove"] and e["sAbove"] < 0)) for e in evs)
     other = any(e.get("e") in ("Exception",) or (e.get("e") == "Repeat" and not e["same"]) or (e.get("e") == "Result" and e["kind"] == "VELOCITY" and not e["fromLast"]) for e in evs)
     cell = dict(cell, symptom="auditContradictsBracket" if (contradict and not other) else ("other" if other else "none"))
-    return {"id": cid, "ev": evs, "cell": cell}
+    return {"id": cid, "ev": evs, "cell": cell, "piter": [p for p in (locals().get("piter") or []) if p]}
 
 
 def cells(tier):
@@ -193,6 +328,7 @@ def cells(tier):
                 out.append(dict(model=mdl, tn=tn, M=M, N=5, errTol=tol, maxIt=20, history=["lte", "solve"] if tier == "quick" else ["lte", "solve", "matching", "deton", "solve"]))
     out.append(dict(model="one", tn=1.9, M=20, N=5, errTol=1e-3, maxIt=20, history=["solve"]))           # runaway
     out.append(dict(model="one", tn=2.1, M=20, N=5, errTol=1e-3, maxIt=3, history=["solve"]))           # forces the unconverged-pressure path
+    out.append(dict(model="one", tn=2.15, M=20, N=5, errTol=1e-3, maxIt=2, history=["deton"]))          # cap exit after one pass; detonation search: improved update from the start
     # out-of-equilibrium particles with synthetic collision files
     out.append(dict(model="one", tn=2.1, M=20, N=5, errTol=1e-3, maxIt=20, particles=1, cstrength=1.0, history=["solve"]))
     out.append(dict(model="two", tn=0.94, M=20, N=5, errTol=1e-3, maxIt=20, history=["solve"]))          # known finding C01-F1
@@ -265,7 +401,8 @@ def run(chk, tier, seed):
         a1 = pool.map_async(scenario, cs, chunksize=1)
         a2 = pool.map_async(manager.execute, behs, chunksize=1)
         a3 = pool.map_async(manager.fresh, pairs, chunksize=1)
-        traces, hevs, refs = a1.get(), a2.get(), a3.get()
+        a4 = pool.map_async(scripted_iterations, [(seed * 100 + q, 150 if tier == "quick" else 600) for q in range(2 if tier == "quick" else 8)], chunksize=1)
+        traces, hevs, refs, scripted = a1.get(), a2.get(), a3.get(), a4.get()
     htraces = []
     for i, (b, evs) in enumerate(zip(behs, hevs)):
         used = {(op["p"], "info") for op in b if op["op"] == "Setup" and op["kind"] == "good"} | {(pt, op["c"]) for op in b for pt in _points_of_calls(b, op)}
@@ -282,6 +419,26 @@ def run(chk, tier, seed):
     chk.sample(traces[0])
     vr = tlc.validate("TraceWallSolver.tla", "TraceWallSolver.cfg", traces)
     chk.add_validation(vr, traces)
+    # the iteration inside every recorded wallPressure call, against PressureIter.tla
+    chk.add_model(tlc.run_model("PressureIter.tla", "PressureIter.cfg"), label="pressure iteration: flag iff converged exit, mean iff cap exit, damping monotone, improved update sticky")
+    chk.add_model(tlc.run_model("PressureIter.tla", "PressureIterCap.cfg"), expect_violation="CapRespected",
+                  label="documented counterexample: 'converged outside, not inside' halves the multiplier without looking at the iteration cap")
+    ptraces = [{"id": f"{tr['id']}_call{j}", "ev": evs, "cell": dict(tr["cell"], kind="piter", call=j)} for tr in traces for j, evs in enumerate(tr.get("piter", []))]
+    ptraces += [t for g in scripted for t in g]
+    if ptraces:
+        chk.add_validation(tlc.validate("TracePressureIter.tla", "TracePressureIter.cfg", ptraces), ptraces, what="pressure iteration")
+    exits = {}
+    damp = 0
+    for t in ptraces:
+        if t["ev"][-1].get("e") != "Exit":
+            continue
+        key = ("cap" if not t["ev"][-1]["succ"] else "converged", "improved" if any(e.get("improve") for e in t["ev"][1:-1]) else "plain")
+        exits[str(key)] = exits.get(str(key), 0) + 1
+        damp += int(any(e.get("k", 0) > 0 for e in t["ev"][1:-1]))
+    beyond = sum(1 for t in ptraces if t["ev"][-1].get("e") == "Exit" and t["ev"][-1]["passes"] > t["ev"][0]["maxIt"] - 1)
+    chk.extra.update(pressure_iterations_validated=len(ptraces), pressure_iteration_exits=exits, pressure_iterations_with_damping=damp,
+                     pressure_iterations_beyond_cap=beyond,
+                     pressure_iterations_scripted=sum(len(g) for g in scripted))
     kinds = {}
     for tr in traces:
         for ev in tr["ev"]:
